@@ -159,6 +159,33 @@ func (m *Model) RunKinds(s *Sink, rule string) {
 			s.Violation(rule, fnKey(nm)+"|only string-keyed maps", m.Pos(nm.Pos()), "map keys are turned into property names with reflect.Value.String() without testing that the key kind is String: a map[int]T is accepted with keys like \"<int Value>\"")
 		}
 	}
+	// ... and that test covers every map, also one without entries: each object returned is returned under it
+	if nm != nil {
+		okAll, nRet := true, 0
+		for _, b := range nm.Blocks {
+			ret, isRet := b.Instrs[len(b.Instrs)-1].(*ssa.Return)
+			if !isRet || len(ret.Results) != 1 || isNilConst(stripIface(ret.Results[0])) {
+				continue
+			}
+			nRet++
+			under := false
+			for _, f := range expandFacts(factsAt(b)) {
+				if bo, ok := f.Cond.(*ssa.BinOp); ok {
+					if kc, ok := bo.Y.(*ssa.Const); ok && kc.Value != nil && kc.Value.Kind() == constant.Int && kc.Int64() == 24 && (bo.Op == token.EQL) == f.Holds {
+						under = true
+					}
+				}
+			}
+			if !under {
+				okAll = false
+			}
+		}
+		if okAll && nRet > 0 {
+			s.OK(rule, fnKey(nm)+"|a map with another key type is refused whatever it holds", m.Pos(nm.Pos()), "every return of an object is dominated by the key-kind == String test")
+		} else {
+			s.Violation(rule, fnKey(nm)+"|a map with another key type is refused whatever it holds", m.Pos(nm.Pos()), "%s can return an object on a path on which the key kind was not tested (e.g. the test sits inside the loop over the entries): an empty or nil map[int]T is accepted as an empty object instead of making the call fail", fnKey(nm))
+		}
+	}
 	// no reflect setter anywhere in the library
 	if !isReflectSetter("(reflect.Value).SetInt") || isReflectSetter("(reflect.Value).Interface") {
 		s.Undecided(rule, "reflect setters|matcher self-check", "-", "the reflect-setter matcher is broken")
@@ -294,6 +321,77 @@ func (m *Model) RunKinds(s *Sink, rule string) {
 						}
 					}
 				}
+			}
+		}
+		// ... and every exported field does: the only way round the property store within a pass of the loop over the
+		// fields is the unexported-field edge
+		for _, li := range naturalLoops(ns) {
+			var stores []*ssa.BasicBlock
+			for b := range li.body {
+				for _, in := range b.Instrs {
+					if _, ok := in.(*ssa.MapUpdate); ok {
+						stores = append(stores, b)
+					}
+				}
+			}
+			if len(stores) == 0 {
+				continue
+			}
+			isStore := map[*ssa.BasicBlock]bool{}
+			for _, b := range stores {
+				isStore[b] = true
+			}
+			// the edges taken when the field is not exported
+			skipEdge := map[[2]*ssa.BasicBlock]bool{}
+			for b := range li.body {
+				iff, ok := b.Instrs[len(b.Instrs)-1].(*ssa.If)
+				if !ok {
+					continue
+				}
+				cond, neg := iff.Cond, false
+				if u, isU := cond.(*ssa.UnOp); isU && u.Op == token.NOT {
+					cond, neg = u.X, true
+				}
+				if c, isC := cond.(*ssa.Call); isC && c.Call.StaticCallee() != nil && fnFullName(c.Call.StaticCallee()) == "(reflect.StructField).IsExported" {
+					if neg {
+						skipEdge[[2]*ssa.BasicBlock{b, b.Succs[0]}] = true
+					} else {
+						skipEdge[[2]*ssa.BasicBlock{b, b.Succs[1]}] = true
+					}
+				}
+			}
+			// is the header reachable again from the first body block without a store and without a skip edge?
+			seen := map[*ssa.BasicBlock]bool{}
+			var stack []*ssa.BasicBlock
+			for _, sc := range li.header.Succs {
+				if li.body[sc] {
+					stack = append(stack, sc)
+				}
+			}
+			around := ""
+			for len(stack) > 0 && around == "" {
+				b := stack[len(stack)-1]
+				stack = stack[:len(stack)-1]
+				if seen[b] || isStore[b] || !li.body[b] {
+					continue
+				}
+				seen[b] = true
+				for _, sc := range b.Succs {
+					if skipEdge[[2]*ssa.BasicBlock{b, sc}] {
+						continue
+					}
+					if sc == li.header {
+						around = m.InstrPos(b.Instrs[len(b.Instrs)-1])
+						break
+					}
+					stack = append(stack, sc)
+				}
+			}
+			key := fnKey(ns) + "|every exported field becomes a property"
+			if around == "" {
+				s.OK(rule, key, m.Pos(ns.Pos()), "within a pass of the loop over the fields the property store can only be by-passed over the !IsExported() edge (or by leaving the function)")
+			} else {
+				s.Violation(rule, key, around, "%s can go on to the next field without storing the current one although it is exported (pass ends at %s): some exported fields (by tag, name, type, ...) are not reachable from templates", fnKey(ns), around)
 			}
 		}
 		if okExp {
